@@ -21,7 +21,7 @@ Proof.
   induction m using ms_ind_ext; cbn [CodecExt.hfv ext_of_gen]; try reflexivity; auto.
   - unfold ext_pk_k. destruct (key_sig_bytes (fx_pkk fx) (xc_schnorr xc) (xc_unc xc k)). reflexivity.
   - unfold ext_pk_h. destruct (key_sig_bytes fx (xc_schnorr xc) (xc_unc xc k)). reflexivity.
-  - unfold ext_pk_h. destruct (key_sig_bytes fx (xc_schnorr xc) false). reflexivity.
+  - unfold ext_pk_h_none, ext_pk_h. destruct (key_sig_bytes (fx_pkk fx) (xc_schnorr xc) true). reflexivity.
 Qed.
 
 Lemma sumN_map {A} (f : A -> N) l : CodecExt.sumN (map f l) = sum_map f l.
